@@ -21,18 +21,18 @@ func init() {
 		NotDecided: "projection contents, stability of equal keys, arithmetic inside limit()/offset(); equality of results with a reference evaluator over all table contents.",
 	})
 	register(&Property{
-		ID:    "C06",
-		Run:   runC06,
-		Floor: 12,
+		ID:          "C06",
+		Run:         runC06,
+		Floor:       12,
 		Assumptions: []string{"join inputs are produced left then right, matching the header order lFields ++ rFields"},
-		NotDecided: "multiset equality of join results; alias scoping over long chains.",
+		NotDecided:  "multiset equality of join results; alias scoping over long chains.",
 	})
 	register(&Property{
-		ID:    "C07",
-		Run:   runC07,
-		Floor: 5,
+		ID:          "C07",
+		Run:         runC07,
+		Floor:       5,
 		Assumptions: []string{"AVG operands are integers (C18 turns anything else into an error)"},
-		NotDecided: "the numerical values of COUNT/AVG beyond the structural clauses below (group-key injectivity, per-column counters, seeds, rounding placement).",
+		NotDecided:  "the numerical values of COUNT/AVG beyond the structural clauses below (group-key injectivity, per-column counters, seeds, rounding placement).",
 	})
 }
 
@@ -669,12 +669,29 @@ func c05SortComparator(c *Ctx, rule string) {
 	// DESC negation
 	key := f.Name + "|desc-negates"
 	okDesc := false
+	sawTest := false
 	ast.Inspect(cmp.Body, func(x ast.Node) bool {
 		ifs, ok := x.(*ast.IfStmt)
 		if !ok {
 			return true
 		}
-		be, ok := ast.Unparen(ifs.Cond).(*ast.BinaryExpr)
+		cond := ast.Unparen(ifs.Cond)
+		// the per-key direction may have been resolved up front into a []bool filled in step with the key
+		// positions: `descs = append(descs, spec.OrderingSpecification.Type == sql.DESC)` … `if descs[k]`
+		viaSlice := ""
+		if ix, ok := cond.(*ast.IndexExpr); ok {
+			if sid, ok := ast.Unparen(ix.X).(*ast.Ident); ok {
+				for _, as := range f.assignsTo(f.Decl.Body, f.ObjOf(sid)) {
+					if args, self := f.isSelfAppend(as, f.ObjOf(sid)); self && len(args) == 1 && enclosingLoop(f.Decl.Body, as) != nil {
+						if be2, ok := ast.Unparen(args[0]).(*ast.BinaryExpr); ok && strings.Contains(exprKey(be2.X), "OrderingSpecification") {
+							cond = be2
+							viaSlice = exprKey(ix.Index)
+						}
+					}
+				}
+			}
+		}
+		be, ok := cond.(*ast.BinaryExpr)
 		if !ok {
 			return true
 		}
@@ -682,6 +699,7 @@ func c05SortComparator(c *Ctx, rule string) {
 		if cst == nil || !strings.Contains(exprKey(be.X), "OrderingSpecification") {
 			return true
 		}
+		sawTest = true
 		negInThen := false
 		for _, st := range ifs.Body.List {
 			if as, ok := st.(*ast.AssignStmt); ok && len(as.Lhs) == 1 && exprKey(as.Lhs[0]) == lessVar && exprKey(as.Rhs[0]) == "!"+lessVar {
@@ -701,12 +719,20 @@ func c05SortComparator(c *Ctx, rule string) {
 			}
 			return true
 		})
-		if !strings.Contains(exprKey(be.X), "["+keyVar+"]") {
+		if viaSlice != "" {
+			if viaSlice != keyVar {
+				okDesc = false
+			}
+		} else if !strings.Contains(exprKey(be.X), "["+keyVar+"]") {
 			okDesc = false
 		}
 		return true
 	})
-	c.Check(okDesc, rule, key, cmp.Pos(), "negated exactly when the current key's ordering is DESC", "the comparison result is not negated exactly for DESC keys (of the key being compared)")
+	if !sawTest {
+		c.Undecided(rule, key, "the comparator does not test the ordering specification in a form the rule knows")
+	} else {
+		c.Check(okDesc, rule, key, cmp.Pos(), "negated exactly when the current key's ordering is DESC", "the comparison result is not negated exactly for DESC keys (of the key being compared)")
+	}
 	// equal keys continue; result returned per key
 	key = f.Name + "|equal-keys-fall-through"
 	okEq := false
@@ -1197,11 +1223,28 @@ func c06Ambiguity(c *Ctx, rule string) {
 		c.Check(okAmb, rule, f.Name+"|second-match-is-ambiguous", f.Decl.Pos(), "a second match returns ErrFieldAmbiguous", "the unqualified lookup does not return ErrFieldAmbiguous when the name matches twice: it resolves silently to one side")
 	}
 	if f := c.NeedFunc(rule, "storage.Fields.LookupColIdxByID"); f != nil {
+		// the success return sits where both comparisons are known to hold, however the test is written
+		// (`if a && b { return }`, `if !a || !b { continue }; return`, nested ifs)
 		okBoth := false
+		g := f.Graph()
 		inspectBody(f.Decl.Body, func(x ast.Node) bool {
-			if ifs, ok := x.(*ast.IfStmt); ok {
-				s := exprKey(ifs.Cond)
-				if strings.Contains(s, ".Column=="+paramName(f, 1)) && strings.Contains(s, ".TableID=="+paramName(f, 0)) && strings.Contains(s, "&&") {
+			rs, ok := x.(*ast.RangeStmt)
+			if !ok {
+				return true
+			}
+			vid, ok := rs.Value.(*ast.Ident)
+			if !ok {
+				return true
+			}
+			for _, r := range g.Returns() {
+				if r.Pos() < rs.Body.Pos() || r.End() > rs.Body.End() || !g.ReturnMayBeNil(r) {
+					continue
+				}
+				loc, ok := g.Locate(r)
+				if !ok {
+					continue
+				}
+				if g.HoldsAt(loc, Rel{vid.Name + ".Column", token.EQL, paramName(f, 1)}) && g.HoldsAt(loc, Rel{vid.Name + ".TableID", token.EQL, paramName(f, 0)}) {
 					okBoth = true
 				}
 			}
